@@ -8,7 +8,7 @@ INJECTS = [("harness/libacc/lib_verif.go", "pkg/station/lib/zz_verif_acc.go"),
            ("harness/c05/main/main.go", "internal/zzverif_c05/main.go")]
 ASSUME = ["threads: the caller, both halfPipes and the asynchronous closers (go statements rewritten to controlled threads); scheduling points: every Read (blocking modelled), Write, modelled WaitGroup.Wait, thread spawn; I/O faults are environment deviations chosen per call (cost 1 each)",
           "scripted connections: Read returns at most one scripted chunk; a Read blocked on a connection that another thread closes returns net.ErrClosed, as the runtime poller does; virtual clock for the 30 s / 2 min relay deadlines",
-          "data races on the shared tunnelStats strings are outside the scheduler's view (see C09's -race companion)"]
+          "data races are outside the scheduler's view: covered by the free-running companion under the Go race detector (adjunct_runs)"]
 UPS = ["", "7", "7,1", "1,7,32768", "32769", "7!"]
 DOWNS = ["", "5", "5,3", "5!"]
 
@@ -39,6 +39,9 @@ def run(tier, seed, t0):
         scen.append("7|5|d3p1")
         scen.append("7|5|d1p3")
     res = vlib.run_workers(w, [["-scenario", s, "-tier", tier, "-budget", str(budget)] for s in scen], timeout=budget + 180)
+    # adjunct: two real tunnels at once, free-running under the Go race detector (unsynchronised accesses are invisible
+    # to a cooperative scheduler)
+    res += vlib.race_pass("c05race", INJECTS, "./internal/zzverif_c05", ["race"], budget=240 if tier == "thorough" else 24, rewrites=REWRITES)
     vlib.finish(PID, tier, "model_checking", res, t0, ASSUME,
                 "stateless DFS over all executions of the real Proxy on scripted client/covert connections with at most d environment deviations (I/O fault kinds: Read {EOF, data+EOF, ECONNRESET, data+ECONNRESET, timeout, data+timeout}, Write {short by 1, 0 bytes, EPIPE, timeout, ECONNRESET}, Close {EIO, timeout}, SetDeadline {EINVAL}, Dial {ECONNREFUSED, ENETUNREACH}; every call position) and at most p preemptions, per chunking script (scenario = up chunks|down chunks|bounds; '!' = that side never sends EOF); oracle per execution: per direction writes == data reads in order up to the first failed write (including data returned together with an error), both connections closed at return, every thread finishes, reported byte counts == delivered, session gauge restored",
                 seed=seed)
